@@ -37,6 +37,8 @@ func main() {
 	case "c15probe":
 		i, _ := strconv.Atoi(os.Args[2])
 		props.C15Probe(i)
+	case "c14bench":
+		props.C14Bench()
 	case "corpus":
 		props.DumpCorpus()
 	case "list":
